@@ -202,7 +202,7 @@ def roland_table(cells, hdr=0, vflags=(0xFFFF, 0xFFFF)):
 
 
 # redundant header words: free-cluster count (consistent, stale, garbage) and the three accepted version-flag pairs
-R_HDR = [1, 5, ROLAND_SMALL - 1, ROLAND_SMALL, 0xFFF1, 0xFFFF]
+R_HDR = [1, 2, 3, 4, 5, ROLAND_SMALL - 1, ROLAND_SMALL, 0xFFF1, 0xFFFF]      # (2..5: the count equals a cluster number in use)
 R_VFLAGS = [(0xFFFF, 0xFFFF), (0xFFFE, 0xFFFF), (0xFFFF, 0xFFFE), (0xFFFE, 0xFFFE)]
 
 
@@ -281,7 +281,7 @@ def run_roland_hdr(prefix, rep, steps, ncells):
                     check_roland_table(RF, T, ROLAND_SMALL, 2, 2 + ncells, rep, steps, "roland_fat16")
 
 
-def run_roland_embedded(cells_list, rep, steps, hdrs=(0, 0xFFF1, 0xFFFF)):
+def run_roland_embedded(cells_list, rep, steps, hdrs=(0, 2, 3, 0xFFF1, 0xFFFF)):
     """Conformance of the shrunken table to the real one: the same cell patterns embedded in a
     real 65536-entry FAT area and parsed through FatAreaParser.parse."""
     import struct
@@ -430,8 +430,8 @@ class Check(CheckBase):
             "links 1..n-1, n}) x all starts, n=5 quick / 6 thorough; (c) all raw Roland FAT tables over scanned cells "
             "2..6 with FAT_NUM_ENTRIES rebound to 16 (word in {free,reserved,error,0xFFF8,0xFFFF,links 2..7,16}) x "
             "starts 2..7, plus the same cell patterns embedded in a real 65536-entry FAT (one representative per "
-            "outcome class quick / every 7th table thorough), each with the free-cluster count word 0 / 0xFFF1 / 0xFFFF; "
-            "(c') all tables over 3 (quick) / 4 (thorough) scanned cells x free-cluster count word {1,5,15,16,0xFFF1,0xFFFF} "
+            "outcome class quick / every 7th table thorough), each with the free-cluster count word 0 / 2 / 3 / 0xFFF1 / 0xFFFF; "
+            "(c') all tables over 3 (quick) / 4 (thorough) scanned cells x free-cluster count word {1,2,3,4,5,15,16,0xFFF1,0xFFFF} "
             "x the four accepted version-flag pairs (redundant header words must not influence any chain); (d) FileStream.readall over every injective chain of "
             "<=n sectors; (e) the streams the tables hand out (AKAI get_segment, Roland get_file) for every injective chain of <=4 "
             "(thorough 5) sectors: resolved four times, read to the end twice and in turn through two handles. states = (table,start) combinations; transitions = table element reads performed by the "
